@@ -194,7 +194,15 @@ func main() {
 					raw, _ := json.Marshal(map[string]interface{}{"input": inputs[i], "idx": i})
 					os.WriteFile(filepath.Join(*out, fmt.Sprintf("inflight_%d.json", k)), raw, 0o644)
 				}
+				t0 := time.Now()
 				obs[i] = safeRun(p, inputs[i])
+				if d := time.Since(t0); d > 2*time.Second && os.Getenv("XV_SLOW") != "" {
+					raw, _ := json.Marshal(inputs[i])
+					if len(raw) > 300 {
+						raw = raw[:300]
+					}
+					fmt.Fprintf(os.Stderr, "SLOW case %d: %v %s\n", i, d, raw)
+				}
 			}
 			if journal {
 				os.Remove(filepath.Join(*out, fmt.Sprintf("inflight_%d.json", k)))
